@@ -1,6 +1,7 @@
 import Cirbo.Proofs.Connect
 import Cirbo.Proofs.ConnSem
 import Cirbo.Proofs.ConnFull
+import Cirbo.Model.Wrappers
 /-!
 # C10 — Circuit composition computes the documented functional composition
 
@@ -8,6 +9,7 @@ import Cirbo.Proofs.ConnFull
 -- OBLIGATION: c10_left_connection_keeps_base_function
 -- OBLIGATION: c10_left_connection_computes_the_composition
 -- OBLIGATION: c10_left_connection_interface_and_block
+-- OBLIGATION: c10_wrappers_are_connections
 -- PARTIAL: proved for every left connection (connect_circuit(right_connect=False), connect_left, extend_circuit, add_circuit): (1) only gates are added and every base gate keeps its value under every assignment; (2) the attached gates compute the attached circuit's function of the values at the connectors (a renaming of the attached circuit's labels — connectors to the base gates they were identified with, other gates to their prefixed copies — turns every valuation of the result into a valuation of the attached circuit). (3) the exact inputs/outputs lists of the result (kept base interface minus connectors, then the attached circuit's unconnected inputs/outputs, renamed, in order), the block recording the attached circuit (its inputs/outputs are the attached circuit's, renamed) and the survival of older blocks (c10_left_connection_interface_and_block). Not yet proved: the right-connect direction and re-extraction of a block as a circuit. All of it is modelled one-to-one (Model/Mutate2.lean connStep/connFinish) and compared with the code field by field (both directions, wrappers, name/prefix options, repeated composition); the implementation's result is checked against the composed evaluation of the two operands on all assignments, against the documented interface, checkWFU and block extraction.
 -/
 namespace Cirbo
@@ -62,10 +64,25 @@ theorem c10_left_connection_interface_and_block {c other c' : Circuit} {thisC ot
       (∀ n b, n ≠ name → c.getBlock n = .ok b → c'.getBlock n = .ok b) :=
   connect_left_full hwo h
 
+/-- the five wrappers are `connect_circuit` with the arguments their documentation states; in
+particular `connect_left`, `add_circuit` and `extend_circuit(right_connect=False)` are left connections,
+so the three theorems above apply to them; an explicit (even empty) connector list given to
+`extend_circuit` is used as given, only `None` is replaced by the default -/
+theorem c10_wrappers_are_connections (c other : Circuit) (thisC otherC : List Label) (name : Label) (addP right : Bool) :
+    c.connectLeft other thisC name addP = c.connectCircuit other thisC other.inputs false name addP ∧
+    c.connectRight other otherC name addP = c.connectCircuit other c.inputs otherC true name addP ∧
+    c.connectInputs other name addP = c.connectCircuit other c.inputs other.inputs true name addP ∧
+    c.addCircuit other name addP = c.connectCircuit other [] [] false name addP ∧
+    c.extendCircuit other (some thisC) (some otherC) right name addP = c.connectCircuit other thisC otherC right name addP ∧
+    c.extendCircuit other none none false name addP = c.connectCircuit other c.outputs other.inputs false name addP ∧
+    c.extendCircuit other none none true name addP = c.connectCircuit other c.inputs other.outputs true name addP :=
+  ⟨rfl, rfl, rfl, rfl, rfl, rfl, rfl⟩
+
 #print axioms c10_frame_add_gate
 #print axioms c10_left_connection_keeps_base_function
 #print axioms c10_left_connection_computes_the_composition
 
 #print axioms c10_left_connection_interface_and_block
+#print axioms c10_wrappers_are_connections
 
 end Cirbo
